@@ -1,5 +1,5 @@
 (* C03 - no API call sequence corrupts memory, invokes undefined behaviour or leaks.
-   Theorems about the pointer-level models coq/Mem/{PropList,ParamSlots,DataAlloc,AddArrays}.v (the rest of
+   Theorems about the pointer-level models coq/Mem/{PropList,ParamSlots,DataAlloc,DataZ0,AddArrays,HashTab}.v (the rest of
    the API is covered by the sanitizer enumeration of checks/C03.py only: support, not proof). *)
 Require Import List ZArith.
 Import ListNotations.
@@ -181,3 +181,39 @@ Theorem pmap_rehash_head_refuted : exists ops os s,
   mhistory HRehashHead (map (mop_of hf_demo) ops) (start None) = Ok (os, s) /\ os <> m_fun [] ops.
 Proof. exact map_rehash_head_refuted_lemma. Qed.
 Print Assumptions pmap_rehash_head_refuted.
+
+(* ------------------------------------------------------------------ the z0 modes of a vnadata_t
+   (coq/Mem/DataZ0.v: _vnadata_convert_to_fz0 / _vnadata_convert_to_z0, vnadata_set_z0 / _set_fz0 / _set_all_z0 /
+   _set_z0_vector / _set_fz0_vector with the caller's vector possibly the object's own, the re-initialisation loops of
+   vnadata_resize) on top of the allocation skeleton *)
+Require Import LV.Mem.DataZ0 LV.Mem.DataZ0Proofs.
+
+(* every list of resizes and z0 setters, every integer argument, every source of the caller's vector, with or without
+   one failing allocation: vnadata_alloc / ops / vnadata_free never faults ... *)
+Theorem vdataz_no_fault : forall ops k f, zhistory ZFixed ops (start k) <> Fault f.
+Proof. exact vdataz_no_fault_lemma. Qed.
+Print Assumptions vdataz_no_fault.
+
+(* ... and frees everything *)
+Theorem vdataz_no_leak : forall ops k os s', zhistory ZFixed ops (start k) = Ok (os, s') -> live s' = [].
+Proof. exact vdataz_no_leak_lemma. Qed.
+Print Assumptions vdataz_no_leak.
+
+Theorem vdataz_inv_satisfiable : exists o s, OInv o s /\ perf (od o) = true /\ fal (od o) = 4%nat /\ ofr o = 2%nat /\ opt o = 2%nat /\
+  length (live s) = 12%nat.
+Proof. exact OInv_satisfiable. Qed.
+Print Assumptions vdataz_inv_satisfiable.
+
+(* D72 / D73 as first read (repaired): the setter frees the vector the caller's pointer refers to, then reads it *)
+Theorem set_fz0_vector_alias_refuted : exists ops, zhistory ZNoCopy ops (start None) = Fault UseAfterFree.
+Proof. exact set_fz0_vector_alias_refuted_lemma. Qed.
+Print Assumptions set_fz0_vector_alias_refuted.
+
+Theorem set_z0_vector_alias_refuted : exists ops, zhistory ZNoCopy ops (start None) = Fault UseAfterFree.
+Proof. exact set_z0_vector_alias_refuted_lemma. Qed.
+Print Assumptions set_z0_vector_alias_refuted.
+
+(* bug shape of the seeded change C03-4: rows only for the frequencies in use *)
+Theorem convert_rows_in_use_refuted : exists ops f, zhistory ZRowsInUse ops (start None) = Fault f.
+Proof. exact convert_rows_in_use_refuted_lemma. Qed.
+Print Assumptions convert_rows_in_use_refuted.
